@@ -294,10 +294,14 @@ func (g *gen) enumDecl(stem, under string, forcePlainIota bool) *Decl {
 	d := &Decl{Name: name, Kind: DEnum, Under: Basic(under)}
 	n := 2 + g.r.Intn(4)
 	snakeNames := g.pr(0.1) // Color_Red naming
+	numbered := g.pr(0.3)
 	mk := func(i int, exported bool) string {
 		w := memberWords[(i*7+g.r.Intn(3))%len(memberWords)]
 		base := name + w
 		if snakeNames {
+			if numbered {
+				w = fmt.Sprint(i + 1) // Tier_1, Tier_2
+			}
 			base = name + "_" + w
 			g.p.Feature("enum:constant-names-with-underscore")
 		} else if exported && g.pr(0.05) {
